@@ -122,7 +122,7 @@ theorem assign_cancelled (s : St) (cs : List Call) (u : Nat) (k : Cause) (hk : k
 existing reservation in place and cancels the context of no call (the only cancellations it records
 are the throw-away contexts of members without a handler) -/
 theorem dup_rejected_without_disturbing (s : St) (batch : List Call) (s' : St)
-    (h : step s (.admit batch) = some s') (i : Id) (u : Nat) (hu : lookup i s.used = some u) :
+    (h : step s (.admitB batch) = some s') (i : Id) (u : Nat) (hu : lookup i s.used = some u) :
     lookup i s'.used = some u ∧ ∀ k, k ≠ Cause.unassigned → (u, k) ∈ s'.cancelled → (u, k) ∈ s.cancelled := by
   simp only [step] at h
   split at h
@@ -302,7 +302,7 @@ theorem inv_init : Inv init := by
 theorem inv_step (s : St) (e : Ev) (h : Inv s) : ∀ s', step s e = some s' → Inv s' := by
   intro s' hs
   cases e with
-  | admit batch =>
+  | admitB batch =>
     simp only [step] at hs
     split at hs
     · simp at hs
@@ -365,11 +365,11 @@ theorem delivery_cancels_only_own_reachable (es : List Ev) (s : St) (hr : run in
 
 -- the scenarios of the two defects, as facts about the repaired model
 /-- F1: after a call to an unknown method is answered, its id is free -/
-example : (run init [.admit [⟨1, 7, false⟩], .admit [⟨2, 7, true⟩]]).map (·.verdicts) =
+example : (run init [.admitB [⟨1, 7, false⟩], .admitB [⟨2, 7, true⟩]]).map (·.verdicts) =
     some [(2, .run), (1, .notFound)] := by decide
 /-- F7: CancelRequest keeps the id reserved; the duplicate is rejected; the first call's delivery
 cancels only the first call -/
-example : (run init [.admit [⟨1, 1, true⟩], .cancelReq 1, .admit [⟨2, 1, true⟩], .deliver [1]]).map
+example : (run init [.admitB [⟨1, 1, true⟩], .cancelReq 1, .admitB [⟨2, 1, true⟩], .deliver [1]]).map
     (fun s => (s.verdicts, s.cancelled)) =
     some ([(2, .duplicate), (1, .run)], [(1, .delivery), (1, .request)]) := by decide
 
